@@ -148,8 +148,9 @@ theorem rinv_step {s : St} (_hi : Inv s) (h : RInv s) (e : Ev) : RInv (step s e)
       simp only [feed]
       split
       · exact h
-      · rename_i hg
-        refine keep _ ((rs_prodIO s).trans ⟨handle_now _ f, Or.inl (same_handle _ f).recon⟩)
+      · split
+        · exact keep _ ((rs_prodIO s).trans ⟨rfl, Or.inl rfl⟩)
+        · exact keep _ (rs_prodIO s)
     | readFault => simp only []; split <;> first | exact h | exact keep _ ⟨rfl, Or.inl rfl⟩
     | setDrain m => simp only []; split <;> first | exact h | exact keep _ ⟨rfl, Or.inl rfl⟩
     | setClose m => simp only []; split <;> first | exact h | exact keep _ ⟨rfl, Or.inl rfl⟩
@@ -232,19 +233,24 @@ theorem rinv_step {s : St} (_hi : Inv s) (h : RInv s) (e : Ev) : RInv (step s e)
       split
       · -- after the cancellations the reconnect state is idle or a Connection task's, unchanged
         rename_i t0 hj
-        intro hnd d hd
-        have hrec : (shutdownTail (cancelProto s) t0).1.recon = (cancelProto s).recon ∧
-            (shutdownTail (cancelProto s) t0).1.now = s.now := by
-          simp only [shutdownTail, closeWriter_fst']
-          split <;> exact ⟨rfl, rfl⟩
-        rw [hrec.1] at hd
-        rw [hrec.2]
-        simp only [cancelProto] at hd
-        split at hd
-        · simp [reconDl] at hd
-        · exact h hdone d hd
+        split
+        · intro hnd d hd
+          have hrec : (shutdownTail (cancelProto s) t0).1.recon = (cancelProto s).recon ∧
+              (shutdownTail (cancelProto s) t0).1.now = s.now := by
+            simp only [shutdownTail, closeWriter_fst']
+            split <;> exact ⟨rfl, rfl⟩
+          rw [hrec.1] at hd
+          rw [hrec.2]
+          simp only [cancelProto] at hd
+          split at hd
+          · simp [reconDl] at hd
+          · exact h hdone d hd
+        · exact h
       · exact h
     | setupGo => exact keep _ ⟨setupGo_now s, Or.inl (same_setupGo s).recon⟩
+    | gate a => exact keep _ ⟨(frames_gateEv s a).now, Or.inl (frames_gateEv s a).recon⟩
+    | release => exact keep _ ⟨(frames_release s).now, Or.inl (frames_release s).recon⟩
+    | take => exact keep _ ⟨(frames_take s).now, Or.inl (frames_take s).recon⟩
 
 theorem rinv_init (cfg : Nat) (rc : Bool) (sc : List OpenRes) : RInv (init cfg rc sc) := by
   intro _ d hd; simp [init, reconDl] at hd
